@@ -34,13 +34,22 @@ def run(scn, stats, flags=None, observers=(), stop=None, count_exc=True):
     for ob in observers:
         drv.observers.append(ob)
     r = sched.Run(drv, scn, flags)
+    r.truncated = None
     try:
         r.run(stop=stop)
+    except provider.KnownTrigger as k:
+        if stats is not None:
+            stats.excluded[k.fid] += 1
+        r.engine_exception = None
+        r.truncated = k.fid
+        return defn, r
+    except provider.Anomaly as a:
+        raise Violation("anomaly", {"what": str(a), "definition": defn, "history": history_summary(r)})
     except provider.EngineException as e:
         if not count_exc:
             raise
         if stats is not None:
-            stats.engine_exceptions["%s@%s" % (e.etype, e.site)] += 1
+            stats.engine_exception(e, scn)
         r.engine_exception = e
         return defn, r
     r.engine_exception = None
